@@ -47,6 +47,40 @@ pub fn apply_reshape_step(t: &Tensor, op: &str, to: &[usize]) -> (String, Tensor
     }
 }
 
+/// "All contents": element identity i carried by a float that is awkward to compare or to copy
+/// (NaN, infinities, zeros of both signs, a subnormal, the largest finite value).
+fn special_content(i: usize) -> f32 {
+    const PALETTE: [f32; 8] = [f32::NAN, f32::INFINITY, f32::NEG_INFINITY, -0.0, 0.0, 1.0e-40, f32::MAX, -1.5];
+    PALETTE[i % 8]
+}
+
+/// The same behaviour once more on special contents: outcomes as before, positions preserved bit for bit.
+fn replay_reshape_special(case: &Value, rep: &mut Report, id: &str) {
+    let start = usizes(&case["start"]);
+    let n: usize = start.iter().product();
+    let content: Vec<f32> = (1..=n).map(special_content).collect();
+    let mut t = if start.len() == 1 { Tensor::single(content.clone()) } else { triple_rowmajor(&start, &content) };
+    for (i, step) in case["steps"].as_array().unwrap().iter().enumerate() {
+        let op = str_of(step, "op");
+        let to = usizes(&step["to"]);
+        let (outcome, after) = apply_reshape_step(&t, op, &to);
+        rep.checks += 1;
+        if outcome != str_of(step, "outcome") {
+            rep.mismatch("C14", "outcome_depends_on_contents", id, json!({"step": i, "expected": step["outcome"], "observed": outcome, "to": to}), case);
+            return;
+        }
+        if outcome == "ok" {
+            let want: Vec<u32> = vec1(&step["flat"]).iter().map(|e| special_content(*e as usize).to_bits()).collect();
+            let got: Vec<u32> = flat(&after).iter().map(|x| x.to_bits()).collect();
+            if got != want || shape_dims(&after.shape) != usizes(&step["shape"]) {
+                rep.mismatch("C14", "row_major_special_contents", id, json!({"step": i, "to": to}), case);
+                return;
+            }
+            t = after;
+        }
+    }
+}
+
 pub fn replay_reshape(case: &Value, rep: &mut Report) {
     let start = usizes(&case["start"]);
     let mut t = start_tensor(&start);
@@ -137,6 +171,7 @@ pub fn replay_reshape(case: &Value, rep: &mut Report) {
             t = after;
         }
     }
+    replay_reshape_special(case, rep, &id);
     if interesting {
         rep.nontrivial(key);
     }
@@ -158,15 +193,22 @@ pub fn record_reshape(seed: u64, tier: &str, trace: &mut Vec<Value>, rep: &mut R
             let i = rng.below(shape.len() as u64) as usize;
             shape[i] = (shape[i] + 1) / 2;
         }
+        // the first runs: tensors of several thousand elements (non-square planes, a single long row), far beyond the
+        // sizes any size-gated fast path would leave alone
+        const BIG: [[usize; 3]; 4] = [[3, 32, 48], [2, 60, 40], [2, 1, 2500], [1, 70, 64]];
+        let big = run < BIG.len();
+        if big {
+            shape = BIG[run].to_vec();
+        }
         let mut t = start_tensor(&shape);
         trace.push(json!({"event": "Reset", "run": run, "shape": shape}));
         for _ in 0..rng.range(2, 6) {
             let n: usize = shape_dims(&t.shape).iter().product();
-            let (op, to): (&str, Vec<usize>) = match rng.below(10) {
+            let (op, to): (&str, Vec<usize>) = match if big { rng.below(7) } else { rng.below(10) } {
                 0 => ("flatten", vec![]),
                 1..=2 => (
                     "reshape",
-                    vec![if rng.below(2) == 0 { n } else { rng.range(1, 60) as usize }],
+                    vec![if big || rng.below(2) == 0 { n } else { rng.range(1, 60) as usize }],
                 ),
                 3..=6 => {
                     // a factorisation of n (equal count)
@@ -175,7 +217,7 @@ pub fn record_reshape(seed: u64, tier: &str, trace: &mut Vec<Value>, rep: &mut R
                         c -= 1;
                     }
                     let m = n / c;
-                    let mut h = rng.range(1, m.min(12) as i64) as usize;
+                    let mut h = rng.range(1, m.min(if big { 90 } else { 12 }) as i64) as usize;
                     while m % h != 0 {
                         h -= 1;
                     }
